@@ -14,7 +14,9 @@ import (
 	"github.com/hashicorp/consul/internal/verifmc/c05"
 	"github.com/hashicorp/consul/internal/verifmc/c06"
 	"github.com/hashicorp/consul/internal/verifmc/c07"
+	"github.com/hashicorp/consul/internal/verifmc/c08"
 	"github.com/hashicorp/consul/internal/verifmc/c10"
+	"github.com/hashicorp/consul/internal/verifmc/c13"
 	"github.com/hashicorp/consul/internal/verifmc/ev"
 )
 
@@ -31,7 +33,9 @@ var checks = map[string]checkDef{
 	"C05": {"model_checking", c05.Run},
 	"C06": {"model_checking", c06.Run},
 	"C07": {"model_checking", c07.Run},
+	"C08": {"exploration", c08.Run},
 	"C10": {"exploration", c10.Run},
+	"C13": {"exploration", c13.Run},
 }
 
 func main() {
